@@ -2,9 +2,12 @@
 # usage: seedall.sh [tier] [ids...]
 # Runs the check of each seeded change's property against a scratch worktree of /repo with the change applied
 # (VERIF_REPO; same result as applying it to /repo itself, without blocking /repo; four at a time), then removes the
-# worktree.  Writes /verif/seeded/RESULTS.tsv: id, property, applies, exit code, first clause reported.
+# worktree.  The checks run from a snapshot of /verif, so that /verif can be worked on meanwhile.
+# Writes /verif/seeded/RESULTS.tsv: id, property, applies, exit code, first clause reported.
 tier=${1:-quick}; [ $# -gt 0 ] && shift
-cd /verif || exit 9
+snap=/tmp/verif-snap-$$
+rm -rf $snap && mkdir -p $snap && rsync -a --exclude .run --exclude out --exclude .git /verif/ $snap/ || exit 9
+cd $snap || exit 9
 ids=${*:-$(ls seeded | grep '^S-')}
 mkdir -p /tmp/wts .run/seed
 one() {
@@ -13,10 +16,10 @@ one() {
   wt=/tmp/wts/$id
   git -C /repo worktree remove --force $wt >/dev/null 2>&1
   git -C /repo worktree add -q --detach $wt HEAD || return
-  if ! git -C $wt apply /verif/seeded/$id/patch.diff 2>/dev/null; then
+  if ! git -C $wt apply $snap/seeded/$id/patch.diff 2>/dev/null; then
     printf '%s\t%s\tno\t-\t-\n' $id $prop > .run/seed/$id.tsv
   else
-    VERIF_REPO=$wt VERIF_EVIDENCE=/verif/.run/seed/ev-$id VERIF_OUT=/verif/.run/seed/out-$id VERIF_SEED=${VERIF_SEED:-1} \
+    VERIF_REPO=$wt VERIF_EVIDENCE=$snap/.run/seed/ev-$id VERIF_OUT=$snap/.run/seed/out-$id VERIF_SEED=${VERIF_SEED:-1} \
       timeout 2400 ./check $prop $tier > .run/seed/$id.log 2>&1; rc=$?
     clause=$(grep -m1 '^VIOLATION' .run/seed/$id.log | sed -e 's/.*clause=\([A-Za-z0-9_]*\).*/\1/')
     [ -z "$clause" ] && clause=$(grep -m1 -E '^INCONCLUSIVE|^KNOWN' .run/seed/$id.log | cut -c1-70)
@@ -34,16 +37,19 @@ for id in $ids; do
 done
 wait
 git -C /repo worktree prune
-if [ -f seeded/RESULTS.tsv ]; then cp seeded/RESULTS.tsv .run/seed/prev.tsv; else : > .run/seed/prev.tsv; fi
-python3 - <<'PY'
+if [ -f /verif/seeded/RESULTS.tsv ]; then cp /verif/seeded/RESULTS.tsv .run/seed/prev.tsv; else : > .run/seed/prev.tsv; fi
+SNAP=$snap python3 - <<'PY'
 import glob, os
+snap = os.environ['SNAP']
 rows = {}
-for l in open('/verif/.run/seed/prev.tsv'):
+for l in open(snap + '/.run/seed/prev.tsv'):
     f = l.rstrip('\n').split('\t')
     if f and f[0]: rows[f[0]] = l.rstrip('\n')
-for p in glob.glob('/verif/.run/seed/S-*.tsv'):
+for p in glob.glob(snap + '/.run/seed/S-*.tsv'):
     l = open(p).read().rstrip('\n')
     if l: rows[l.split('\t')[0]] = l
 with open('/verif/seeded/RESULTS.tsv', 'w') as f:
     for k in sorted(rows): f.write(rows[k] + '\n')
 PY
+mkdir -p /verif/.run/seed && cp .run/seed/*.log /verif/.run/seed/ 2>/dev/null
+cd / && rm -rf $snap
